@@ -185,11 +185,11 @@ def enc_reg(kind, v):
 
 
 text_st = st.text(alphabet=st.characters(min_codepoint=0x20, max_codepoint=0x7E), min_size=0, max_size=24)
-ascii_text_st = st.one_of(text_st, st.text(alphabet=st.characters(min_codepoint=0x00, max_codepoint=0x7F), min_size=0, max_size=24), text_st.map(lambda t: t[:20] + "\x00\x00"))
 # texts that look like something another layer understands (a P1 data line, an identification line, an end line), with the
 # lengths 10 and 13 (whose length octet is LF / CR) represented
 LAYER_TEXTS = ["1.8.0(123)", "1.8.0(1*kW)", "1-0:1.8.0(1)", "31.7.0(1*A)\r\n", "/ABC5x\r\n!\r\n", "!ABCD", "(1)(2)", "0.0(0)", "1.7.0(12345)", "2.8.0(00001*kWh)", "1.0.0(210222161900W)"]
 text1_st = st.one_of(st.text(alphabet=st.characters(min_codepoint=0x20, max_codepoint=0x7E), min_size=1, max_size=24), st.text(alphabet=st.characters(min_codepoint=0x20, max_codepoint=0x7E), min_size=1, max_size=24), st.sampled_from(LAYER_TEXTS))
+ascii_text_st = st.one_of(text_st, st.text(alphabet=st.characters(min_codepoint=0x00, max_codepoint=0x7F), min_size=0, max_size=24), text_st.map(lambda t: t[:20] + "\x00\x00"), st.sampled_from(LAYER_TEXTS))
 small_reg_st = st.integers(0, 127) | st.sampled_from([41, 0x29, 0x21, 0x2F])  # registers whose octets are all 7-bit ASCII
 
 # ============================================================================================================
